@@ -63,3 +63,33 @@ Proof. vm_compute. repeat split; reflexivity. Qed.
 Example dangling_not_accepted :
   validate_write w_fs_dangling [] w_path_dangling <> VOk /\ validate_write w_fs_dangling [] w_path_dangling_dir <> VOk.
 Proof. vm_compute. split; discriminate. Qed.
+
+(* ---- source URIs: both entry points of the current source use the link-free helper (repo fixes ea316ac + 3bf4eb7) ---- *)
+Lemma pin_uri_resolution_steps :
+  paths_uri_resolution = 2 /\ paths_uri_catches_runtime = true /\
+  paths_stale_resolution = 2 /\ paths_stale_catches_runtime = true.
+Proof. repeat split; reflexivity. Qed.
+
+(* the text's statement holds of validate_source_uri of the current source ... *)
+Theorem uri_full_src : uri_full paths_uri_resolution paths_uri_catches_runtime.
+Proof. exact (uri_full_link_free true). Qed.
+
+(* ... and of _check_single_snapshot: a hashed file has no link in any component and lies below the root *)
+Theorem stale_src_real fs base root uri p : stale_uri_src fs base root uri = SHashed p ->
+  real fs p /\ forall q, In q (inits1 p) -> p_is_symlink fs q = false.
+Proof. exact (stale_link_free true fs base root uri p). Qed.
+
+(* regression by computation on the generated flags: 2-link tree (loop.md/../lf.md), 3-link tree (loop.md/../k2), bare cycle *)
+Example src_refuses_cycles :
+  validate_uri_src w_fs_cycle [w_sb] w_uri_cycle = URefused /\
+  validate_uri_src w_fs_cycle [w_sb] w_uri_cycle2 = URefused /\
+  validate_uri_src w_fs_cycle [w_sb] [108;111;111;112;46;109;100] = URefused /\
+  stale_uri_src w_fs_cycle [w_sb] [w_sb] w_uri_cycle = SError /\
+  stale_uri_src w_fs_cycle [w_sb] [w_sb] w_uri_cycle2 = SError /\
+  stale_uri_src w_fs_cycle [w_sb] [w_sb] [108;111;111;112;46;109;100] = SError.
+Proof. vm_compute. repeat split; reflexivity. Qed.
+
+Example src_link_free_nonvacuous :
+  validate_uri_src w_fs_live [w_sb] [100;47;46;46;47;100] = UOk [w_sb; [100]] /\
+  validate_uri_src w_fs_live [w_sb] [108;110;107;100] = URefused.
+Proof. vm_compute. split; reflexivity. Qed.
